@@ -43,6 +43,8 @@ func main() {
 		runC16(*tier, *seed, out)
 	case "C04", "C05":
 		runQueueCheck(id, *tier, *seed, out)
+	case "C20":
+		runC20(*tier, *seed, out)
 	case "C06":
 		runC06(*tier, *seed, out)
 	case "C07", "C08":
